@@ -14,8 +14,9 @@ import (
 )
 
 type bigCase struct {
-	Part string `json:"part"` // "big"
-	Size int    `json:"entries"`
+	Part     string `json:"part"` // "big"
+	Size     int    `json:"entries"`
+	Volatile bool   `json:"volatile_sender,omitempty"` // the sender's state is a volatile one (a delta or a union of queued payloads): it is sent in full whatever its size
 }
 
 func runBig(c *core.Ctx, bc bigCase) {
@@ -23,7 +24,11 @@ func runBig(c *core.Ctx, bc bigCase) {
 	defer func() { crdt.Now = orig }()
 	var clock int64
 	crdt.Now = func() int64 { return clock }
-	sender := event.NewState(":memory:")
+	dir, backend := ":memory:", "state-dur"
+	if bc.Volatile {
+		dir, backend = "", "state-vol"
+	}
+	sender := event.NewState(dir)
 	defer sender.Close()
 	for i := 0; i < bc.Size; i++ {
 		ev := event.Ban(fmt.Sprintf("key-%06d", i))
@@ -39,7 +44,7 @@ func runBig(c *core.Ctx, bc bigCase) {
 	for _, buf := range sender.Encode() {
 		snap, err := event.DecodeState(buf)
 		if err != nil {
-			c.Violate("state-dur:diverged:full-snapshot-refused", fmt.Sprintf("the full snapshot of a state with %d bans is refused by the receiver: %v", bc.Size, err), bc)
+			c.Violate(backend+":diverged:full-snapshot-refused", fmt.Sprintf("the full snapshot of a state with %d bans is refused by the receiver: %v", bc.Size, err), bc)
 			return
 		}
 		receiver.Merge(snap)
@@ -61,7 +66,7 @@ func runBig(c *core.Ctx, bc bigCase) {
 		}
 	}
 	if missing+wrong > 0 {
-		c.Violate("state-dur:diverged:full-snapshot", fmt.Sprintf("after the full snapshot of %d bans (every tenth lifted) the receiver misses %d active bans and has %d lifted ones as active", bc.Size, missing, wrong), bc)
+		c.Violate(backend+":diverged:full-snapshot", fmt.Sprintf("after the full snapshot of %d bans (every tenth lifted) the receiver misses %d active bans and has %d lifted ones as active", bc.Size, missing, wrong), bc)
 	}
 }
 
@@ -72,6 +77,17 @@ func partBig(c *core.Ctx) {
 	}
 	for _, n := range sizes {
 		runBig(c, bigCase{Part: "big", Size: n})
+		c.Add("big_snapshot_cases", 1)
+		c.Add("transitions", int64(n))
+	}
+	// a volatile payload (delta, union of queued payloads) is encoded entry by entry: sizes around and beyond what the
+	// durable encoder would send
+	vsizes := []int{50001}
+	if !c.Quick() {
+		vsizes = []int{49999, 50000, 50001, 70000}
+	}
+	for _, n := range vsizes {
+		runBig(c, bigCase{Part: "big", Size: n, Volatile: true})
 		c.Add("big_snapshot_cases", 1)
 		c.Add("transitions", int64(n))
 	}
